@@ -7,7 +7,7 @@ import os
 import re
 
 from . import gen, kernel, realize, simfs
-from .model import HistoryModel, ModelError, TreeModel, flat_ops
+from .model import HistoryModel, ModelError, TreeModel, flat_ops, is_ignored_path, touched_paths
 
 
 class World:
@@ -173,7 +173,10 @@ def exec_history_step(world: World, model: HistoryModel, st, out=None):
         rec = st["cs"]
         if not rec["ops"] or not list(flat_ops(rec["ops"])):
             return StepResult(op, skipped=True, info={"why": "empty change set"})
-        tree = model.current()
+        ignored_only = all(is_ignored_path(x) for x in touched_paths(rec["ops"]))
+        # ignored files are not modelled: validate such a change set against
+        # the real tree instead
+        tree = TreeModel(world.snapshot()) if ignored_only else model.current()
         try:
             tree.apply_all(rec["ops"])
         except ModelError as e:
@@ -273,6 +276,8 @@ def exec_history_step(world: World, model: HistoryModel, st, out=None):
         except Exception as e:
             return StepResult(op, exc=e, info={"has_remove": False})
         after = world.snapshot()
+        before = {k: v for k, v in before.items() if not is_ignored_path(k)}
+        after = {k: v for k, v in after.items() if not is_ignored_path(k)}
         # model: undo then redo of the last change leaves lists as they were,
         # except that the redo list is what it was (redo pops what undo pushed)
         return StepResult(op, info={"same": before == after, "diff": kernel.diff_trees(before, after) if before != after else None,
